@@ -59,7 +59,7 @@ def check(rep, tier, seed):
     info, broken = vlib.proof_step(rep, "C06")
     n = 500 if tier == "quick" else 15000
     sess = [gen(rnd) for _ in range(n)]
-    modelled = set(E._NAMES[:40]) | {"self-insert", "digit-argument", "vi-arg-digit", "vi-delete-to", "vi-yank-to"}
+    modelled = E.modelled_names()
     for s in sess:
         s["modelled"] = all(c[0] in modelled for c in s["cmds"])
     out = E.run(sess, sel_pos=True)
